@@ -653,7 +653,10 @@ Section Main.
     cbn [valid_js so_reference so_instance_type so_subschemas so_enum_values so_object so_array
          so_format so_number so_string so_const_value so_extensions].
     destruct ref as [r|].
-    { inversion Hj; subst o. reflexivity. }
+    { (* a reference; {$ref, nullable: true} is published as {allOf: [$ref], nullable: true} *)
+      cbn [so_extensions] in Hj. destruct (ext_nullable ext); inversion Hj; subst o.
+      - cbn [valid_oas valid_okind forallb sd_nullable]. rewrite andb_true_r. reflexivity.
+      - reflexivity. }
     apply andb_true_iff in Hsup as [Hcst Hsup]. destruct cst; [discriminate|]. clear Hcst.
     inv_bind_as Hj ty Hty. inv_bind_as Hj kind Hkind. inversion Hj; subst o; clear Hj.
     cbn [valid_oas j2oas_data sd_nullable so_extensions].
@@ -831,7 +834,7 @@ Proof.
   destruct so as [md ity fmt en cst subs num sv arr obj ref ext].
   cbn [j2oas convertible so_reference so_instance_type so_subschemas so_enum_values so_object
        so_array so_format so_number so_string].
-  destruct ref as [r|]; [reflexivity|].
+  destruct ref as [r|]; [destruct (ext_nullable (so_extensions _)); reflexivity|].
   cbn [schema_size so_subschemas so_array so_object] in Hsz.
   destruct ity as [[t|ts]|]; cbn [bind]; [| reflexivity |].
   - destruct subs as [sb|]; [destruct t; reflexivity|].
@@ -1035,8 +1038,10 @@ Qed.
 
 (* title (or the supplied name), description, default, nullable, deprecated,
    read/write-only, x- extensions, example: unconditionally; format: for every
-   supported schema *)
+   supported schema.  (Beside a [$ref] only [nullable: true] counts, see
+   [annots_js]; the other siblings of a reference are ignored.) *)
 Theorem annotations_kept_top b b2 name so d k :
+  so_reference so = None ->
   supported_with b b2 (SObj so) = true ->
   j2oas name (SObj so) = Ok (OItem d k) ->
   annot_oas d k = annot_js name so.
@@ -1044,7 +1049,7 @@ Proof.
   destruct so as [md ity fmt en cst subs num sv arr obj ref ext].
   cbn [j2oas supported_with so_reference so_instance_type so_subschemas so_enum_values so_object
        so_array so_format so_number so_string so_const_value].
-  destruct ref as [r|]; [discriminate|].
+  intros Href. subst ref.
   intros Hs H. apply andb_true_iff in Hs as [_ Hs].
   inv_bind_as H ty Hty. inv_bind_as H kind Hk. inversion H; subst d k; clear H.
   unfold annot_oas, annot_js, j2oas_data.
